@@ -154,14 +154,15 @@ type rreq struct {
 }
 
 type bpeer struct {
-	rig   *relayRig
-	cuts  bool // this peer resets its connection as soon as the first bytes of a request arrive
-	end   *sim.End
-	buf   []byte
-	out   [][]byte
-	after string // close | keep
-	cur   *rreq
-	done  bool
+	resetArmed bool
+	rig        *relayRig
+	cuts       bool // this peer resets its connection as soon as the first bytes of a request arrive
+	end        *sim.End
+	buf        []byte
+	out        [][]byte
+	after      string // close | keep
+	cur        *rreq
+	done       bool
 }
 
 type relayRig struct {
@@ -261,6 +262,14 @@ func setupRelayProxy(c *casket.Controller) error {
 				}
 				if rig.cleanup {
 					return nil, fmt.Errorf("sim: backend gone")
+				}
+				for _, q := range rig.reqs {
+					// the client of this request has reset its connection meanwhile: the cancelled
+					// round trip would open the connection, write some of the request and drop it
+					// again, how much being a race inside net/http
+					if fmt.Sprint(q.id) == id && q.cl != nil && q.cl.aborted {
+						return nil, fmt.Errorf("sim: the client of request %s is gone", id)
+					}
 				}
 				if rig.deadFirst && strings.HasPrefix(addr, "10.7.0.1:") {
 					rig.c.Fault("backend-connection-refused")
@@ -833,6 +842,9 @@ func (r *relayRig) addReq(i int) {
 	if (r.faults && sc.fault == "" && st.Draw(8) == 0) || (r.countFails && st.Draw(3) == 0) {
 		q.cl.abortAt = 1 + st.Draw(len(q.cl.segs))
 		q.aborted = true
+		q.cl.onAbort = func() {
+			r.c.StopDigest("a client reset its connection mid-request; how much of the request net/http's transport still writes to the backend while it cancels the round trip is decided by a race between its own goroutines")
+		}
 	}
 	r.reqs = append(r.reqs, q)
 }
@@ -865,6 +877,17 @@ func (r *relayRig) events(add func(sim.Event)) {
 				if len(p.out) > 0 {
 					p.end.Send(p.out[0])
 					p.out = p.out[1:]
+					if len(p.out) == 0 && p.after == "reset" && !p.resetArmed {
+						// the reset follows once the proxy has taken in what was sent (a reset
+						// overtakes and discards data still on its way)
+						p.resetArmed = true
+						return
+					}
+				}
+				if len(p.out) == 0 && p.after == "reset" && p.resetArmed {
+					if d, f := p.end.Peer().Pending(); d+f > 0 {
+						return // not read yet: the event is offered again
+					}
 				}
 				if len(p.out) == 0 {
 					switch p.after {
@@ -1052,6 +1075,12 @@ func (r *relayRig) judge() {
 			// relaxed: an error status or a cut response, never bytes the backend did not send
 			if len(fin) == 1 && fin[0].Status == sc.status && len(fin[0].Body) > 0 && !bytes.HasPrefix(sc.body, fin[0].Body) {
 				c.Violate("C04/foreign-response-bytes", sc.fault, "request %d: backend was cut (%s) and the client received body bytes the backend never sent", q.id, sc.fault)
+			}
+			// ... and never a truncated body dressed up as a complete response: when the backend's
+			// chunked body broke off, the client must be able to tell (no clean end of the response)
+			if sc.fault == "reset-mid" && sc.framing == "chunked" && len(fin) == 1 && q.cl.perr == nil && fin[0].Status == sc.status &&
+				q.method != "HEAD" && sc.status != 204 && sc.status != 304 && len(fin[0].Body) < len(sc.body) && (fin[0].Chunked || fin[0].Header.Get("Content-Length") != "") {
+				c.Violate("C04/truncated-response-passed-as-complete", "backend-chunked-body-cut", "request %d: the backend's chunked body broke off after %d of %d bytes; the client received those %d bytes as a complete, well-formed response", q.id, len(fin[0].Body), len(sc.body), len(fin[0].Body))
 			}
 			c.Probe("faulty-backend-judged")
 			continue
